@@ -122,6 +122,13 @@ def run(ctx) -> None:
     ctx.floor("tee_operations", 1000)
     objmodel.merge_table(ctx, "R01.15")
     ctx.floor("merge_table_cells_decided", 400)
+    from . import c03
+    from .common import Relabel
+    ctx.rule("R01.18", "every tool accepts what the stdlib tool accepts: the adapter that turns an argument into an iterator does not "
+                       "type-test it against synchronous ABCs and wraps whatever is not async iterable (R03.2 / R03.3, shared)")
+    c03.r03_2(Relabel(ctx, "R01.18"))
+    c03.r03_3(Relabel(ctx, "R01.18"))
+    tooltables.fault_tables(ctx, "R01.19", items_only=True)
     ctx.floor("tool_cells_decided", 120)
     ctx.floor("merge_cells", 6)
     ctx.floor("yield_sites", 18)
